@@ -126,10 +126,21 @@ def run(ctx):
         wraps = []
         stub = dict(extra=[(py.util, dict(to_180_range=wrap_stub(wraps)))])
         # order 0: correct_pva(pva, 0) = pva
-        with rdomain(py):
-            pva = make_pva({s.name: RSym(s) for s in ST})
-            out0 = em.correct_pva(pva, np.array([RSym(sp.Integer(0))] * n, dtype=object))
-        _order0(ctx, "C05.correct.order0.%s" % tag, out0, py)
+        from pvx import paths as _paths
+        from pvx.claims import const_point as _const_point
+        st0 = _paths.Captured(lambda: em, py)
+
+        def _zero_correction():
+            st0.restore()
+            with rdomain(py):
+                pva = make_pva({s.name: RSym(s) for s in ST})
+                return em.correct_pva(pva, np.array([RSym(sp.Integer(0))] * n, dtype=object))
+        runs0 = _paths.explore_claim(_zero_correction)
+        st0.restore()
+        for k0, (conds0, out0) in enumerate(runs0):
+            if conds0 and not _paths.witnesses(conds0, ST, full_domain(py, BOX), _const_point(py), ctx.seed, field.DEFAULT_BOX):
+                continue            # a branch no input takes
+            _order0(ctx, "C05.correct.order0.%s%s" % (tag, ".path%d" % k0 if len(runs0) > 1 else ""), out0, py)
 
         def diff_corrected(v):
             pva = make_pva(v)
@@ -182,7 +193,9 @@ def run(ctx):
         bad = []
         for w in wraps:
             for c in flat(w):
-                c0 = sp.sympify(c).subs(eps, 0)
+                # (the history obligations run the claim a second time on primed symbols: same side condition, renamed)
+                c0 = sp.sympify(c)
+                c0 = c0.xreplace({s_: sp.Symbol(s_.name[:-len("__prev")], real=True) for s_ in c0.free_symbols if s_.name.endswith("__prev")}).subs(eps, 0)
                 if c0 != 0 and field.check_zero(c0, domain=full_domain(py, BOX), seed=ctx.seed, cos_nonneg=COSNN).status != "proved":
                     if not _is_roundtrip_zero(c0):
                         bad.append(str(c0)[:120])
@@ -223,7 +236,7 @@ def _order0(ctx, name, out0, py):
         if i < 6:
             ctx.from_verdict("%s[%s]" % (name, nm), "a", field.check_zero(d, domain=full_domain(py, BOX), seed=ctx.seed, cos_nonneg=COSNN), None)
         else:
-            ok = _is_roundtrip_zero(d)
+            ok = d == 0 or sp.simplify(d) == 0 or _is_roundtrip_zero(d)
             ctx.ob("%s[%s]" % (name, nm), "a", ok, "field-nf(atan2 congruence)", 0.0,
                    "angle returned by the Euler extraction is congruent to the input angle (cos pitch > 0)" if ok else str(d)[:200])
 
